@@ -18,7 +18,7 @@ Three layers, all on every run:
    (Gaussian-integer Unitary gates + exact named gates), (d) wire names kept, final
    measurements on the same logical qubits / registers.
 """
-STATIC = ["C09/Props"]
+STATIC = ["C09/Props", "C09/ModelCheck"]
 import itertools
 import json
 import os
@@ -424,6 +424,19 @@ def spec_checks(spec, info):
                         {"l2p": l2p}))
     except OverflowError:
         pass
+    # cross-check of the harness simulator against the real numpy backend (measurement-free circuits)
+    try:
+        if not any(isinstance(g, gates.M) for g in routed.queue) and n <= 6:
+            from qibo.backends import NumpyBackend
+            rs = np.random.RandomState(len(routed.queue) * 7919 + n)
+            psi = (rs.randint(-3, 4, 2 ** n) + 1j * rs.randint(-3, 4, 2 ** n)).astype(complex)
+            got = np.asarray(NumpyBackend().execute_circuit(routed, initial_state=psi.copy()).state())
+            mine = exact_operator(routed.queue, n).reshape(2 ** n, 2 ** n) @ psi
+            if not np.array_equal(got, mine):
+                bad.append((f"backend_vs_harness:{rname}", "real numpy backend and the harness simulator disagree on the routed circuit", {}))
+            info["backend_checked"] = True
+    except OverflowError:
+        pass
     # (d) final measurements: same registers, same logical qubits, same order
     want = [(m.register_name, tuple(l2p[q] for q in m.qubits)) for m in circuit.measurements]
     got = [(m.register_name, tuple(m.qubits)) for m in routed.measurements]
@@ -538,7 +551,7 @@ def model_terms(spec, info):
     t_replay = f"replay {n} {cgraph(spec)} {its} {fin} {cgates(ops)} {cgates(logged)}"
     t_blocks = f"blocks_check {n} {body} {its}"
     return {"replay": t_replay, "blocks": t_blocks, "objs": objs, "split": split,
-            "nops": len(ops), "nblocks": len(items)}
+            "nops": len(ops), "nblocks": len(items), "nundo": sum(1 for o in ops if o == "OUndo")}
 
 
 def compare_model_out(model_out, real_queue, objs):
@@ -598,7 +611,7 @@ def mk_spec(g, wn, gs, router):
 def main_cases(tier, rng):
     nmax = 6 if tier == "quick" else 8
     nsim = 6
-    budget = 260 if tier == "quick" else 1500
+    budget = 900 if tier == "quick" else 4000
     graphs = base_graphs(nmax, rng, 8 if tier == "quick" else 30)
     small = [(nm, g) for nm, g in graphs if g.number_of_nodes() <= nsim]
     cases = []
@@ -635,7 +648,7 @@ def main_cases(tier, rng):
         cases.append((nm, mk_spec(g, wn, gs, router)))
     # star router on 5-node stars with every labelling style
     star = nx.star_graph(4)
-    for k in range(40 if tier == "quick" else 200):
+    for k in range(120 if tier == "quick" else 500):
         g = label_variants(_relabel(star, rng.sample(range(5), 5)), rng, rng.choice(hows))
         wn = list(g.nodes())
         rng.shuffle(wn)
@@ -734,6 +747,8 @@ def process(run, cases, label, found, stats, timeout):
             nsw = len(info["routed"].queue) - len(info["circuit"].queue)
             nontrivial = nsw > 0 or [payload(g) for g in info["routed"].queue] != [payload(g) for g in info["circuit"].queue]
             stats["swaps"] = stats.get("swaps", 0) + max(nsw, 0)
+            if info.get("backend_checked"):
+                stats["routed_circuits_also_run_on_real_backend"] = stats.get("routed_circuits_also_run_on_real_backend", 0) + 1
         run.case([spec["nodes"], spec["edges"], spec["wire_names"], spec["gates"], spec["router"]], nontrivial)
         if len(run.samples) < 4 and nontrivial and len(spec["gates"]) <= 8:
             run.sample({"graph": nm, "spec": spec, "final_layout": str(info.get("layout")),
@@ -799,6 +814,7 @@ def coq_batches(run, pending, label, found, stats):
             b_eq, b_reorder = parse_coq(next(it))
             stats["traces_replayed"] = stats.get("traces_replayed", 0) + 1
             stats["ops_replayed"] = stats.get("ops_replayed", 0) + t["nops"]
+            stats["undo_ops_replayed"] = stats.get("undo_ops_replayed", 0) + t["nundo"]
             stats["blocks_compared"] = stats.get("blocks_compared", 0) + t["nblocks"]
             diff = None
             if not stepped:
@@ -900,6 +916,7 @@ def replay(run, data):
         return run.finish(rule="replay of one recorded case")
     info = run_router(spec, timeout=60.0)
     bad = spec_checks(spec, info)
+    run.oblige("replay_executed", True, "replay")
     run.case([spec["edges"], spec["wire_names"], spec["gates"], spec["router"]])
     run.sample({"spec": spec})
     for key, what, extra in bad:
